@@ -132,10 +132,10 @@ mutual
 end
 
 mutual
-  /-- `seal` (list.py:378-386, dict.py:433-441): returns at once when the flag already matches. -/
+  /-- `seal` (list.py, dict.py, object.py): always reaches every symbolic descendant. -/
   def Tree.seal (s : Bool) : Tree → Tree
     | .leaf a => .leaf a
-    | .node m its => if m.sealed = s then .node m its else .node { m with sealed := s } (sealItems s its)
+    | .node m its => .node { m with sealed := s } (sealItems s its)
   def sealItems (s : Bool) : Items → Items
     | [] => []
     | (k, c) :: r => (k, c.seal s) :: sealItems s r
@@ -147,6 +147,9 @@ def renumberFrom (n : Nat) : Items → Items
 
 /-- list payload: the key of the i-th item is `i`. -/
 def renumber (its : Items) : Items := renumberFrom 0 its
+
+/-- `if sealed: self.seal(True)` at the end of the constructors. -/
+def sealIf (b : Bool) (t : Tree) : Tree := if b then t.seal true else t
 
 /-- The `sealed` flag a clone is constructed with: `Dict._sym_clone` and `Object._sym_clone` pass
 `sealed=self._sealed`; `List._sym_clone` does not (F17) unless patched. -/
@@ -171,7 +174,9 @@ mutual
       let its' := match m.kind with
         | .list => setPathItems p (renumber (r.1.filter (fun kv => !kv.2.isMissing)))
         | _ => r.1
-      ((Tree.node { m with id := next, parent := par, path := p, sealed := false } its').seal (cloneSealed cfg m), r.2)
+      -- the constructors seal (recursively) only when asked to: `if sealed: self.seal(True)`
+      (sealIf (cloneSealed cfg m)
+        (Tree.node { m with id := next, parent := par, path := p, sealed := false } its'), r.2)
   def cloneItems (cfg : Cfg) (deep : Bool) (next : Nat) (h : Nat) (p : List Key) : Items → Items × Nat
     | [] => ([], next)
     | (k, c) :: r =>
@@ -328,7 +333,7 @@ mutual
         | .list => renumber r.2
         | .dict => r.2
       let t := Tree.node { id := id, parent := par, path := p, kind := kind, sealed := false, accW := aw, part := pt } its
-      (r.1, if sl then t.seal true else t)
+      (r.1, sealIf sl t)
   def evalItems (cfg : Cfg) (f : Forest) (pending : Option Nat) (h : Nat) (holderObj : Bool) (hpart : Bool) (p : List Key) : List (Key × VE) → Forest × Items
     | [] => (f, [])
     | (k, v) :: r =>
